@@ -132,6 +132,30 @@ def normalise_pyx(src):
 
 # --------------------------------------------------------------------------
 
+class _FuncTable(dict):
+    """qualified name -> Func.  Look-ups (`get`, `[]`, `in`) also find methods a class inherits from a base class defined in
+    the project (`toasty.image.Image.flip_parity` when flip_parity lives in a mixin); iteration lists each function once."""
+
+    def __init__(self):
+        super().__init__()
+        self.inherited = {}
+
+    def get(self, k, default=None):
+        v = dict.get(self, k)
+        if v is None:
+            v = self.inherited.get(k, default)
+        return v
+
+    def __getitem__(self, k):
+        v = self.get(k)
+        if v is None:
+            raise KeyError(k)
+        return v
+
+    def __contains__(self, k):
+        return dict.__contains__(self, k) or k in self.inherited
+
+
 class Project:
     """All analysed sources of one checkout.
 
@@ -146,7 +170,7 @@ class Project:
         self.root = root
         self.overrides = overrides or {}
         self.modules = {}
-        self.funcs = {}
+        self.funcs = _FuncTable()
         self.classes = {}  # qual -> (ClassDef, Module)
         self.parse_errors = []
         self._load()
@@ -184,6 +208,38 @@ class Project:
             mod = Module(name, rel, src, tree, kind)
             self.modules[name] = mod
             self._index(mod)
+        self._link_inherited()
+
+    def _link_inherited(self):
+        """Methods a class gets from project base classes (by base-class name: same module first, then any module)."""
+        by_name = {}
+        for q in self.classes:
+            by_name.setdefault(q.rsplit(".", 1)[-1], []).append(q)
+
+        def bases_of(q):
+            node, mod = self.classes[q]
+            out = []
+            for b in node.bases:
+                nm = (dotted(b) or "").split(".")[-1]
+                cands = [c for c in by_name.get(nm, []) if c != q]
+                same = [c for c in cands if self.classes[c][1] is mod]
+                pick = same or cands
+                if len(pick) == 1:
+                    out.append(pick[0])
+            return out
+        for q in self.classes:
+            seen, todo = set(), bases_of(q)
+            while todo:
+                b = todo.pop(0)
+                if b in seen:
+                    continue
+                seen.add(b)
+                for k, f in list(dict.items(self.funcs)):
+                    if k.startswith(b + ".") and "." not in k[len(b) + 1:]:
+                        alias = q + "." + k[len(b) + 1:]
+                        if not dict.__contains__(self.funcs, alias) and alias not in self.funcs.inherited:
+                            self.funcs.inherited[alias] = f
+                todo.extend(bases_of(b))
 
     def _index(self, mod):
         def visit(body, prefix, cls, parent):
